@@ -55,7 +55,7 @@ fn size_of(run: &IoRun) -> usize {
 /// Greedy delta debugging on the (workload, fault plan) pair: keep an edit
 /// only if the same invariant of the same property still fails.
 pub fn minimise(run: &IoRun, prop: &str, inv: &str) -> IoRun {
-    let fails = |r: &IoRun| target_viol(&execute(r, false), prop, Some(inv)).is_some();
+    let fails = |r: &IoRun| target_viol(&simcore::par::isolated(|| execute(r, false)), prop, Some(inv)).is_some();
     let mut cur = run.clone();
     let mut budget = 4000usize;
     loop {
@@ -378,7 +378,14 @@ pub fn run_check(prop: &str, opts: &Opts) -> i32 {
         simcore::par::run_batch_guarded(
             n_enum,
             workers,
-            |i| execute(&cases_ref[i as usize], false),
+            |i| {
+                let t = std::time::Instant::now();
+                let o = simcore::par::isolated(|| execute(&cases_ref[i as usize], false));
+                if std::env::var_os("VERIF_SLOW").is_some() && t.elapsed().as_millis() > 2000 {
+                    eprintln!("SLOW enumeration#{} {} ms: {}", i, t.elapsed().as_millis(), serde_json::to_string(&cases_ref[i as usize]).unwrap_or_default());
+                }
+                o
+            },
             &mut acc,
             |acc, i, o| absorb(acc, prop, &known, format!("enumeration#{}", i), &cases_ref[i as usize], o),
             Some((HANG_LIMIT, &on_hang)),
@@ -411,7 +418,7 @@ pub fn run_check(prop: &str, opts: &Opts) -> i32 {
                 |i| {
                     let mut rng = Rng::new(run_seed(batch_seed, start + i));
                     let run = gen::gen_run(&mut rng, corpus_ref, prop);
-                    let o = execute(&run, false);
+                    let o = simcore::par::isolated(|| execute(&run, false));
                     (run, o)
                 },
                 &mut acc,
@@ -437,7 +444,7 @@ pub fn run_check(prop: &str, opts: &Opts) -> i32 {
         violations = 1;
         println!("violation found at {}: {} {} :: {}", origin, v.inv, v.key, v.detail);
         let min = minimise(&run, prop, v.inv);
-        let o = execute(&min, true);
+        let o = simcore::par::isolated(|| execute(&min, true));
         let mv = target_viol(&o, prop, Some(v.inv)).cloned().unwrap_or(v.clone());
         let rp = Replay {
             engine: "iosim".into(),
